@@ -1,6 +1,8 @@
 package parse
 
 import (
+	"unicode/utf8"
+
 	"github.com/robfig/soy/ast"
 )
 
@@ -134,6 +136,24 @@ func H_roundLeaf(k, wrap int) {
 		n = &ast.MapLiteralNode{Items: map[string]ast.Node{"k": n}}
 	}
 	c17Check(n)
+}
+
+// H_roundStr: a string literal (site 0), a map key (site 1) or both in one map entry (site 2)
+// whose n bytes are any valid UTF-8 (1- to 4-byte sequences, control, non-printing and
+// supplementary-plane characters included).
+func H_roundStr(site, n int) {
+	s := verifString(n)
+	verifAssume(utf8.ValidString(s))
+	var node ast.Node
+	switch site {
+	case 0:
+		node = &ast.StringNode{Quoted: quoteString(s), Value: s}
+	case 1:
+		node = &ast.MapLiteralNode{Items: map[string]ast.Node{s: &ast.IntNode{Value: 1}}}
+	default:
+		node = &ast.MapLiteralNode{Items: map[string]ast.Node{s: &ast.StringNode{Quoted: quoteString(s), Value: s}}}
+	}
+	c17Check(node)
 }
 
 // H_roundOps: outer operator o over an inner operator i placed in position pos (0 left/only,
